@@ -48,6 +48,16 @@ inline std::string subst(const char* desc, const int* ops) {
   return s;
 }
 
+// a user-defined "fancy" pointer: constructible from nullptr, comparable only with itself (so that p != nullptr converts the nullptr)
+template <typename T> struct fancy_ptr {
+  T* p = nullptr;
+  fancy_ptr() = default;
+  fancy_ptr(std::nullptr_t) {}
+  explicit fancy_ptr(T* q) : p(q) {}
+  T& operator*() const { return *p; }
+  friend bool operator==(const fancy_ptr& a, const fancy_ptr& b) { return a.p == b.p; }
+  friend bool operator!=(const fancy_ptr& a, const fancy_ptr& b) { return a.p != b.p; }
+};
 // ---- runners: all operand values x all argument values ---------------------------------------------
 template <typename F> void run0(const char* desc, F f) {
   int ops[1] = {0}; auto m = f();
@@ -82,6 +92,8 @@ template <typename F> void runp(const char* desc, bool negate_outer, F f) {
       R.check(t, "unique_ptr<int> " + in, trompeloeil::param_matches(m, std::ref(up)), expect, "ptr");
       std::shared_ptr<int> sp(k >= 0 ? new int(val) : nullptr);
       R.check(t, "shared_ptr<int> " + in, trompeloeil::param_matches(m, std::ref(sp)), expect, "ptr");
+      fancy_ptr<int> fp = k >= 0 ? fancy_ptr<int>(&val) : fancy_ptr<int>(nullptr);
+      R.check(t, "fancy_ptr<int> " + in, trompeloeil::param_matches(m, std::ref(fp)), expect, "ptr");
     }
   }
 }
